@@ -65,12 +65,32 @@ ArithModel(ev) ==
       [] ev.ty = "dec256" /\ ev.op = "fromratio" -> DecFromRatio(a, b)
       [] ev.ty = "dec256" /\ ev.op = "fromuint"  -> DecFromUint(a)
 
+\* the mathematical result of the operator (no width restriction on intermediates): [def, v]
+Exactly(def, v) == [def |-> def /\ Fits256(v), v |-> v]
+ArithExact(ev) ==
+    LET a == ev.a  b == ev.b  c == ev.c
+        quo(n, d) == IF d = N0 THEN [def |-> FALSE, v |-> N0] ELSE Exactly(TRUE, NDiv(n, d))
+    IN
+    CASE ev.op \in {"add"}                         -> Exactly(TRUE, NAdd(a, b))
+      [] ev.op \in {"sub"}                         -> IF NLe(b, a) THEN Exactly(TRUE, NSub(a, b)) ELSE [def |-> FALSE, v |-> N0]
+      [] ev.ty = "u256" /\ ev.op = "mul"           -> Exactly(TRUE, NMul(a, b))
+      [] ev.op \in {"muldec", "decmul"}            -> Exactly(TRUE, NDiv(NMul(a, b), DFRAC))
+      [] ev.op = "divdec"                          -> quo(NMul(a, DFRAC), b)
+      [] ev.op = "mulratio"                        -> quo(NMul(a, b), c)
+      [] ev.op \in {"to128", "from128"}            -> [def |-> Fits128(a), v |-> a]
+      [] ev.ty = "dec256" /\ ev.op = "mul"         -> Exactly(TRUE, NDiv(NMul(a, b), DFRAC))
+      [] ev.op \in {"div", "fromratio"}            -> quo(NMul(a, DFRAC), b)
+      [] ev.op = "fromuint"                        -> Exactly(TRUE, NMul(a, DFRAC))
+
+\* C08: a returned value is exactly the mathematical result (whatever intermediate width the code uses); an abort
+\* happens only where the statement allows one: an operand product or the result exceeds 256 bits, a divisor is
+\* zero, a difference would be negative - which is exactly where Fixed's checked-U256 definition aborts.
 ArithOK(ev) ==
     IF ev.op = "cmp"
     THEN ev.r.v = (IF NLt(ev.a, ev.b) THEN -1 ELSE IF ev.a = ev.b THEN 0 ELSE 1)
-    ELSE LET m == ArithModel(ev) IN
-         IF m.ok THEN ev.r.ok /\ ev.r.v = m.v ELSE ~ev.r.ok
-
+    ELSE IF ev.r.ok
+         THEN ArithExact(ev).def /\ ev.r.v = ArithExact(ev).v
+         ELSE ~ArithModel(ev).ok
 
 (***************************************************************************)
 (* C18: text, JSON and width conversions.  Text is a sequence of byte      *)
